@@ -503,7 +503,7 @@ def main(run):
                      "transitions": t_now - t_before, "levels": st["levels"]}
     states += st["states"]
     t_before = t_now
-    deepest = max(st["seen"].values(), key=lambda c: len(c[1]))
+    deepest = max(st["seen"].values(), key=lambda c: len(c[1]), default=[[None], []])
     run.samples.insert(0, {"phase": phase, "pool": deepest[0][0], "history": deepest[1]})
   run.coverage.update({
     "states": states, "transitions": t_before,
